@@ -1,8 +1,9 @@
 /-
   Driver of property C02 (every written image is a valid image of the same size): the edit-operation
-  model and the independent reader.  The protocol is documented in FianoModel/Uefi/EditDrv.lean.
+  model, the model of create-fv, and the independent reader.  The protocol is documented in
+  FianoModel/Uefi/EditDrv.lean and FianoModel/Uefi/CreateFvDrv.lean.
 -/
 import Driver.Common
-import FianoModel.Uefi.EditDrv
+import FianoModel.Uefi.CreateFvDrv
 
-def main : IO Unit := Driver.loop Fiano.Uefi.EditDrv.handle
+def main : IO Unit := Driver.loop Fiano.Uefi.CreateFvDrv.handle
